@@ -130,7 +130,7 @@ def taint_target(victim, target, secrets, wd):
     sf = os.path.join(d, 'secrets.txt')
     open(sf, 'w').write('\n'.join(s.hex() for _, s in secrets) + '\n')
     log = os.path.join(d, 'vg.log')
-    cmd = ['valgrind', '--tool=memcheck', '--leak-check=no', '--error-exitcode=0', '--num-callers=24', '--error-limit=no', '--fullpath-after=/repo/', '--log-file=' + log, victim, target, sf, 'taint']
+    cmd = ['valgrind', '--tool=memcheck', '--leak-check=no', '--error-exitcode=0', '--num-callers=24', '--error-limit=no', '--fullpath-after=' + R.REPO.rstrip('/') + '/', '--log-file=' + log, victim, target, sf, 'taint']
     try:
         p = subprocess.run(cmd, stdout=subprocess.PIPE, stderr=subprocess.PIPE, text=True, timeout=1800)
     except subprocess.TimeoutExpired:
